@@ -263,6 +263,7 @@ WebSocketMsg WebSocket::receive()
 {
 	WebSocketMsg msg;
 	bool haveMsg = false;
+	bool partial = false; // inside a fragmented message
 	while (!haveMsg)
 	{
 		ByteArray buffer;
@@ -316,6 +317,7 @@ WebSocketMsg WebSocket::receive()
 		case 1: // text
 		case 2: // binary
 			msg.append(buffer);
+			partial = !fin;
 			break;
 		case 8: // connection close
 		{
@@ -337,7 +339,7 @@ WebSocketMsg WebSocket::receive()
 			break;
 		}
 
-		if (fin)
+		if (fin && !(partial && (opcode == 9 || opcode == 10))) // a ping/pong between fragments does not end the message
 			haveMsg = true;
 	}
 
